@@ -160,6 +160,7 @@ def build():
          requires=OREQ('old(self)'),
          ensures=[E('val', '*r == old(self).storage.data@[old(self).id]'),
                   E('map', 'final(self).storage.data@ == old(self).storage.data@.insert(old(self).id, *final(r)) && final(self).id == old(self).id'),
+                  E('same_ref', '*final(final(self).storage) == *final(old(self).storage)'),
                   E('wf', 'final(self).storage.data.wf()'),
                   E('events', 'final(self).storage.data.log() == old(self).storage.data.log() + old(self).storage.data.inner.ev_get_mut(old(self).id)', 'C12')])
     u.fn(EN, ["impl<'a, 'b, T, D> OccupiedEntry<'a, 'b, T, D>", 'fn into_mut'], ret='r', props='C04 C12', impl_header=OH, key='OccupiedEntry::into_mut', rules=N8,
@@ -172,6 +173,7 @@ def build():
          requires=OREQ('old(self)'),
          ensures=[E('ret', 'r == old(self).storage.data@[old(self).id]'),
                   E('map', 'final(self).storage.data@ == old(self).storage.data@.insert(old(self).id, component) && final(self).id == old(self).id'),
+                  E('same_ref', '*final(final(self).storage) == *final(old(self).storage)'),
                   E('wf', 'final(self).storage.data.wf()'),
                   E('events', 'final(self).storage.data.log() == old(self).storage.data.log() + old(self).storage.data.inner.ev_get_mut(old(self).id)', 'C12')])
     u.fn(EN, ["impl<'a, 'b, T, D> OccupiedEntry<'a, 'b, T, D>", 'fn remove'], ret='r', props='C04 C12', impl_header=OH, key='OccupiedEntry::remove', rules=N8,
@@ -186,8 +188,27 @@ def build():
          ensures=[E('val', '*r == component'),
                   E('map', 'map_inserted(old(self.storage).data, final(self.storage).data, self.id, *final(r))'),
                   E('wf', 'final(self.storage).data.wf()')])
-    # StorageEntry::{replace, or_insert, or_insert_with}: not under contract — Verus cannot name the pre/post state of a
-    # `&mut` held inside a by-value enum in a postcondition; they only dispatch to the OccupiedEntry/VacantEntry methods above.
+    SH = "impl<'a, 'b, 'd, T> StorageEntry<'a, 'b, 'd, T> where T: Component,"
+    OC = 'self->Occupied_0'
+    VC = 'self->Vacant_0'
+    SREQ = [E('occ', "self is Occupied ==> %s.storage.data.wf() && %s.storage.data@.dom().contains(%s.id)" % (OC, OC, OC)),
+            E('vac', "self is Vacant ==> %s.storage.data.wf() && ent_ok(%s.storage.entities) && !%s.storage.data@.dom().contains(%s.id)" % (VC, VC, VC, VC))]
+    u.fn(EN, ["impl<'a, 'b, T, D> StorageEntry<'a, 'b, T, D>", 'fn replace'], ret='r', props='C04 C12', impl_header=SH, key='StorageEntry::replace', rules=N8,
+         requires=SREQ,
+         ensures=[E('occupied', "self is Occupied ==> r == Some(old(%s.storage).data@[%s.id]) && final(%s.storage).data@ == old(%s.storage).data@.insert(%s.id, component) && final(%s.storage).data.wf()" % (OC, OC, OC, OC, OC, OC)),
+                  E('vacant', "self is Vacant ==> r is None && final(%s.storage).data@ == old(%s.storage).data@.insert(%s.id, component) && final(%s.storage).data.wf()" % (VC, VC, VC, VC)),
+                  E('events', "self is Occupied ==> final(%s.storage).data.log() == old(%s.storage).data.log() + old(%s.storage).data.inner.ev_get_mut(%s.id)" % (OC, OC, OC, OC), 'C12')])
+    OIW_ENS = lambda val: [
+        E('occupied', "self is Occupied ==> *r == old(%s.storage).data@[%s.id] && map_inserted(old(%s.storage).data, final(%s.storage).data, %s.id, *final(r)) && final(%s.storage).data.wf()" % (OC, OC, OC, OC, OC, OC)),
+        E('vacant', "self is Vacant ==> %s && map_inserted(old(%s.storage).data, final(%s.storage).data, %s.id, *final(r)) && final(%s.storage).data.wf()" % (val, VC, VC, VC, VC)),
+        E('events', "self is Occupied ==> final(%s.storage).data.log() == old(%s.storage).data.log() + old(%s.storage).data.inner.ev_get_mut(%s.id)" % (OC, OC, OC, OC), 'C12')]
+    u.fn(EN, ["impl<'a, 'b, T, D> StorageEntry<'a, 'b, T, D>", 'fn or_insert_with'], ret='r', props='C04 C12', impl_header=SH, key='StorageEntry::or_insert_with', rules=N8,
+         requires=SREQ + [E('callable', 'default.requires(())')],
+         ensures=OIW_ENS('default.ensures((), *r)'))
+    u.fn(EN, ["impl<'a, 'b, T, D> StorageEntry<'a, 'b, T, D>", 'fn or_insert'], ret='r', props='C04 C12', impl_header=SH, key='StorageEntry::or_insert', rules=N8,
+         requires=SREQ,
+         ensures=OIW_ENS('*r == component'),
+         closures={'or_insert_with:||': dict(params='', ret='v__: T', ensures=[('val', 'v__ == component')])})
     # ---- generic access (src/storage/generic.rs): get_mut_or_default on both duplicated impls
     GN = 'src/storage/generic.rs'
     u.struct('src/storage/data.rs', ['type WriteStorage'])
@@ -205,6 +226,26 @@ def build():
          rules=GRULES + [('N12', r'fn get_mut_or_default\(&mut self,', "fn get_mut_or_default<'a: 'b, 'b, 'x, T: Component + DefaultSpec>(self_: &'x mut &'b mut WriteStorage<'a, T>,"),
                          ('N12', r'\bself\b', 'self_'), ('N8', r"Option<&mut T>", "Option<&'x mut T>")],
          requires=[E('data_wf', 'old(self_).data.wf()'), E('ents', 'ent_ok(old(self_).entities)')], ensures=GMD_ENS('self_'))
+    # the one-line delegations of GenericWriteStorage / GenericReadStorage for the by-value handle types (N12: free functions)
+    GW = "impl<'a, T> GenericWriteStorage for WriteStorage<'a, T>"
+    SELF_ = [('N12', r'\bself\b', 'self_'), ('N8', r'Self::Component', 'T')]
+    GWR = [E('data_wf', 'old(self_).data.wf()'), E('ents', 'ent_ok(old(self_).entities)')]
+    u.fn(GN, [GW, 'fn insert'], ret='r', props='C03 C04 C15', free='generic_write_insert', key='GenericWriteStorage(WriteStorage)::insert',
+         rules=[('N12', r'fn insert\(&mut self,', "fn insert<'a, T: Component>(self_: &mut WriteStorage<'a, T>,")] + SELF_,
+         requires=GWR,
+         ensures=[E('stale', '!live(old(self_).entities, entity) ==> r is Err && final(self_).data@ == old(self_).data@', 'C03'),
+                  E('ok', 'live(old(self_).entities, entity) ==> r is Ok && final(self_).data@ == old(self_).data@.insert(entity.0, comp)', 'C04'),
+                  E('wf', 'final(self_).data.wf() && final(self_).entities == old(self_).entities', 'C04')])
+    u.fn(GN, [GW, 'fn remove'], props='C03 C04 C15', free='generic_write_remove', key='GenericWriteStorage(WriteStorage)::remove',
+         rules=[('N12', r'fn remove\(&mut self,', "fn remove<'a, T: Component>(self_: &mut WriteStorage<'a, T>,")] + SELF_,
+         requires=GWR,
+         ensures=[E('map', 'final(self_).data@ == (if live(old(self_).entities, entity) { old(self_).data@.remove(entity.0) } else { old(self_).data@ })', 'C03 C04'),
+                  E('wf', 'final(self_).data.wf() && final(self_).entities == old(self_).entities', 'C04')])
+    u.fn(GN, [GW, 'fn get_mut'], ret='r', props='C03 C04', free='generic_write_get_mut', key='GenericWriteStorage(WriteStorage)::get_mut',
+         rules=N8 + [('N12', r'fn get_mut\(&mut self,', "fn get_mut<'a, 'x, T: Component>(self_: &'x mut WriteStorage<'a, T>,"), ('N8', r"Option<&mut T>", "Option<&'x mut T>")] + SELF_,
+         requires=GWR,
+         ensures=[E('stale', '!live(old(self_).entities, entity) ==> r is None && final(self_).data@ == old(self_).data@', 'C03'),
+                  E('present', 'old(self_).data@.dom().contains(entity.0) && live(old(self_).entities, entity) ==> r is Some && *r.unwrap() == old(self_).data@[entity.0] && final(self_).data@ == old(self_).data@.insert(entity.0, *final(r.unwrap()))', 'C04')])
     # ---- is_empty / negation / restricted views
     for (hdr, tag) in [(HR, '&'), (HW, '&mut')]:
         D = 'self.data' if tag == '&' else 'old(self.data)'
